@@ -587,6 +587,10 @@ def gen_wire(rng, client=False):
     # OpenSSH-style servers answer requests they have no modulus for with a built-in fallback group instead of refusing; the tool's follow-up
     # request recovers the configured size for every peer that calls itself OpenSSH (whatever follows the name in the banner)
     w['gex_style'] = 'openssh_fallback' if ('OpenSSH' in w['banner'] and w['gex_bits'] >= 3072 and rng.random() < 0.6) else 'strict'
+    if 'OpenSSH' not in w['banner'] and rng.random() < 0.35:
+        # an implementation with ONE group that it hands out whatever range the client names (sizes outside the probe sequence included): measured on the first request
+        w['gex_style'] = 'fixed'
+        w['gex_bits'] = rng.choice([1536, 3072, 6144, 7680, 8192])
     return w
 
 
@@ -609,7 +613,7 @@ def wire_spec(w):
     from props import c12
     style = w.get('gex_style', 'strict')
     return dict(banner=w['banner'].encode(), kex=w['kex'], key=w['key'], enc=w['enc'], mac=w['mac'], hostkeys=hk,
-                gex=lambda mn, pf, mx: c12.py_serve(style, [bits], mn, pf, mx))
+                gex=(lambda mn, pf, mx: bits) if style == 'fixed' else (lambda mn, pf, mx: c12.py_serve(style, [bits], mn, pf, mx)))
 
 
 def probing_possible(w):
